@@ -7,6 +7,7 @@ import (
 	"time"
 
 	"github.com/sboehler/knut/lib/journal"
+	"github.com/sboehler/knut/lib/journal/printer"
 	"github.com/sboehler/knut/lib/model"
 	"github.com/spf13/cobra"
 
@@ -66,6 +67,44 @@ func zzRun(build func(reg *model.Registry) *journal.Builder, exec func(cmd *cobr
 	b := build(zzNewRegistry())
 	if err := journal.Print(f, b.Build()); err != nil {
 		panic(err)
+	}
+	f.Close()
+	err = exec(cmd, []string{f.Name()})
+	return out.String(), err
+}
+
+// zzRunDirs is zzRun for an ordered list of directives: natively every directive
+// is printed on its own, in the given order, so that the real loader sees the same
+// arrival order.
+func zzRunDirs(dirs func(reg *model.Registry) []model.Directive, exec func(cmd *cobra.Command, args []string) error) (string, error) {
+	if v.Symbolic() {
+		return zzRun(func(reg *model.Registry) *journal.Builder {
+			b := journal.New()
+			for _, d := range dirs(reg) {
+				b.Add(d)
+			}
+			return b
+		}, exec)
+	}
+	var out strings.Builder
+	cmd := &cobra.Command{}
+	cmd.SetOut(&out)
+	cmd.SetErr(&out)
+	cmd.SetContext(context.Background())
+	f, err := os.CreateTemp("", "zzverif-*.knut")
+	if err != nil {
+		panic(err)
+	}
+	defer os.Remove(f.Name())
+	p := printer.New(f)
+	for _, d := range dirs(zzNewRegistry()) {
+		if t, ok := d.(*model.Transaction); ok {
+			p.UpdatePadding(t)
+		}
+	}
+	for _, d := range dirs(zzNewRegistry()) {
+		p.PrintDirectiveLn(d)
+		f.WriteString("\n")
 	}
 	f.Close()
 	err = exec(cmd, []string{f.Name()})
